@@ -413,8 +413,9 @@ def jobs(tier, seed):
             jobs.append({"harness": "frame", "params": {"cfg": cfgf, "scaffold": free_doc(2, "\n"), "spec": sp, "name": "free", "shard": name},
                          "weight": 12, "cpu_cap": 2400, "wall_cap": 3600})
     ctxs = [["> - ", {"v": "a"}, "\n\n```\nc\n```\n"], ["a|b\n-|-\n", {"v": "a"}, "|2\n"],
-            ["*", {"v": "a"}, "* &amp; <b> \\x\n"]]
+            ["*x* ", {"v": "a"}, " `c`\n"]]
     if tier == "thorough":
+        ctxs.append(["*", {"v": "a"}, "* &amp; <b> \\x\n"])  # ~20 CPU-s per path
         ctxs.append(["[a]: /u\n\nx [a] ![i](x) ", {"v": "a"}, "\n"])  # ~35 CPU-s per path
     for sc in ctxs:
         jobs.append({"harness": "frame", "params": {"cfg": S.JS, "scaffold": sc, "spec": spec, "name": "ctx"},
